@@ -309,7 +309,7 @@ def jobs(tier, seed):
         hyp_n, hyp_shards = 1600, 8
     else:
         ranges = [(0, 70001)]
-        hyp_n, hyp_shards = 24000, 16
+        hyp_n, hyp_shards = 96000, 16
     out = []
     lens = [n for a, b in ranges for n in range(a, b)]
     nchunks = 8 if tier == "quick" else 48
